@@ -128,7 +128,7 @@ def run(ctx):
                          'build': rnd.choice(['expr', 'node']), 'restrict_arg': rnd.choice(['bool', 'int']), 'preamble': pre})
     # large heaps: the same kind of history while 150-450 other diagrams over a superset of the variables stay alive
     # (parent indexes of the terminals and of popular nodes get long; size-dependent paths of the unique table are taken)
-    for i in range(60 if q else 1500):
+    for i in range(60 if q else 400):
         order = rnd.choice(orders)
         extra = [v for v in ['a', 'b', 'c', 'd', 'e', 'f'] if v not in order]
         border = list(order) + extra if rnd.random() < 0.5 else rnd.sample(list(order) + extra, len(order) + len(extra))
